@@ -222,6 +222,14 @@ def gen_comb(streams):
         widths = [pick_width(g, small) for _ in range(n)]
         cfg['reducer'] = g.choice([None] + REDUCERS)
         cfg['final'] = g.choice([None] + FINALS)
+        if g.random() < 0.3:
+            # the reducer called directly on hand-built bit columns, as its docstring invites;
+            # with a fault: one column holds an element that is not a 1-bit WireVector, the call
+            # is refused with PyrtlError, the caller takes the element out and calls again with
+            # the same column lists
+            cfg['reducer'] = cfg['reducer'] or g.choice(REDUCERS)
+            cfg['direct'] = {'bad_col': g.randrange(16) if g.random() < 0.6 else None,
+                             'bad_kind': g.choice(['wide', 'int'])}
     elif gen in ('tree_multiplier', 'signed_tree_multiplier'):
         signed = gen == 'signed_tree_multiplier'
         lo = 2 if signed else 1
@@ -538,6 +546,33 @@ def build_comb(pyrtl, case, blk, cfg=None, shared=None):
         if 'final' in kw:
             return adders.carrysave_adder(xs[0], xs[1], xs[2], final_adder=kw['final'])
         return adders.carrysave_adder(xs[0], xs[1], xs[2])
+    if gen == 'fast_group_adder' and cfg.get('direct'):
+        cols = [[] for _ in range(max(ws))]
+        for x in xs:
+            for i in range(len(x)):
+                cols[i].append(x[i])
+        rb = sum((1 << w) - 1 for w in ws).bit_length()
+        red = kw.get('reducer') or adders.wallace_reducer
+        fkw = {'final_adder': kw['final']} if 'final' in kw else {}
+        d = cfg['direct']
+        if d.get('bad_col') is not None:
+            k = d['bad_col'] % len(cols)
+            wide = [x for x in xs if len(x) >= 2]
+            bad = wide[0] if (d['bad_kind'] == 'wide' and wide) else 1
+            cols[k].append(bad)
+            try:
+                red(cols, rb, **fkw)
+            except pyrtl.PyrtlError:
+                if shared is not None:
+                    shared['reducer_rejected'] = shared.get('reducer_rejected', 0) + 1
+            else:
+                from ..common import Inconclusive
+                raise Inconclusive('reducer accepted an element that is not a 1-bit WireVector')
+            for i, e in enumerate(cols[k]):
+                if e is bad:
+                    del cols[k][i]
+                    break
+        return red(cols, rb, **fkw)
     if gen == 'fast_group_adder':
         fkw = {}
         if 'reducer' in kw:
@@ -608,10 +643,15 @@ def run_comb(case, res):
                 y2 = pyrtl.Output(rw2, 'y2')
                 y2 <<= r2
                 res.probes.hit('comb:twin_unit')
+            if shared.get('reducer_rejected'):
+                res.faults.hit('reducer_call_refused_then_retried', shared['reducer_rejected'])
         sim = make_sim(pyrtl, case['sim'], blk)
     except HarnessError:
         raise
     except Exception as e:
+        from ..common import Inconclusive
+        if isinstance(e, Inconclusive):
+            raise
         res.nontrivial = True
         res.shape = _digest([gen, sorted(cfg.items(), key=lambda kv: kv[0]), ws])
         return Violation('build', gen + '.generator_raised',
